@@ -1074,7 +1074,13 @@ func (p *partition) handleReplicationRequest(msg *nats.Msg) {
 	}
 	replicator, ok := p.replicators[req.ReplicaID]
 	if !ok {
-		panic(fmt.Sprintf("No replicator for partition %s and replica %s", p, req.ReplicaID))
+		// The leader is a replica too but does not replicate to itself, so a
+		// request naming the leader's own ID has no replicator. Like a request
+		// from a non-replica, this is something a misbehaving peer can send
+		// and must not take the leader down.
+		p.srv.logger.Warnf("Received replication request for partition %s from replica %s "+
+			"which has no replicator", p, req.ReplicaID)
+		return
 	}
 	replicator.request(replicationRequest{req, msg, received})
 }
